@@ -268,10 +268,10 @@ def body(ck, F, cfg):
     # verdict
     guards = [it for it in I.trace.items if it[0] == "guard" and FX.same_fn(it[4], P_BATCH)]
     ret = A["ret"]
-    okv = isinstance(ret, Ite) and isinstance(ret.cond, Cond) and ret.cond.op == "iszero" and isinstance(getattr(ret.cond, "subject", None), Pt)
-    if okv:
-        acc, rej = (ret.a, ret.b) if not ret.cond.neg else (ret.b, ret.a)
-        okv = isinstance(acc, Enum) and acc.variant == "Ok" and isinstance(rej, Enum) and rej.variant == "Err" and "VerificationError" in repr(rej)
+    chain, final = AN.exit_chain(I, ret, lambda f: FX.same_fn(f, P_BATCH))
+    lastc = chain[-1] if chain else None
+    okv = lastc is not None and isinstance(lastc[0], Cond) and lastc[0].op == "iszero" and lastc[0].neg and isinstance(getattr(lastc[0], "subject", None), Pt)
+    okv = okv and isinstance(final, Enum) and final.variant == "Ok" and isinstance(lastc[1], Enum) and lastc[1].variant == "Err" and "VerificationError" in repr(lastc[1])
     ck.require(okv, "R07.4", "verdict", f"batch_verify must return Ok exactly when the single accumulated multiscalar sum is the identity; return value {ret!r}", where)
     msms = [m for m in I.msm_log if FX.same_fn(m["fn"], P_BATCH)]
     ck.require(len(msms) == 1 and msms[0]["equal"], "R07.3", "single-msm", f"one multiscalar check over equally long lists expected; {[(str(m['len_bases']), str(m['len_scalars'])) for m in msms]}", where)
